@@ -60,7 +60,7 @@ func tokenize(src string) ([]tok, error) {
 	isIdStart := func(c byte) bool {
 		return c == '_' || c == '$' || c == '#' || c >= 'a' && c <= 'z' || c >= 'A' && c <= 'Z'
 	}
-	isId := func(c byte) bool { return isIdStart(c) || c >= '0' && c <= '9' }
+	isId := func(c byte) bool { return isIdStart(c) || c >= '0' && c <= '9' || c == '~' }
 	for i < len(src) {
 		c := src[i]
 		switch {
